@@ -50,10 +50,16 @@ class StreamBuffer:
     def __init__(self, event_class: Type[IOEvent]) -> None:
         self.buffer = bytearray()
         self._complete = False
+        self._closed = False
         self._is_empty = event_class()
         self._paused = event_class()
 
     async def drain(self) -> None:
+        if self._complete and not self._closed:
+            # A complete buffer has drained once its end has been
+            # sent (it is then closed), not when the last of its
+            # data has been taken.
+            await self._is_empty.clear()
         await self._is_empty.wait()
 
     def set_complete(self) -> None:
@@ -61,6 +67,7 @@ class StreamBuffer:
 
     async def close(self) -> None:
         self._complete = True
+        self._closed = True
         self.buffer = bytearray()
         await self._is_empty.set()
         await self._paused.set()
@@ -84,7 +91,7 @@ class StreamBuffer:
         del self.buffer[:length]
         if len(data) < BUFFER_LOW_WATER and len(self.buffer) < BUFFER_HIGH_WATER:
             await self._paused.set()
-        if len(self.buffer) == 0:
+        if len(self.buffer) == 0 and not self._complete:
             await self._is_empty.set()
         return data
 
@@ -187,6 +194,9 @@ class H2Protocol:
                 # what was still buffered, the response did not end.)
                 self.connection.end_stream(stream_id)
                 await self._flush()
+                # The stream has ended, which is what a sender of
+                # the end of the body is waiting for.
+                await self.stream_buffers[stream_id].close()
                 del self.stream_buffers[stream_id]
                 self.priority.remove_stream(stream_id)
         except (h2.exceptions.StreamClosedError, KeyError, h2.exceptions.ProtocolError):
